@@ -96,10 +96,13 @@ Inductive rollstep := RFlush | RClose | RReset | RNew.
 Record shapes := mkShapes {
   sh_exit : list mcall;              (* AbstractWriter.__exit__: the self.<m>() calls of its body, in order *)
   sh_del : list mcall;               (* AbstractWriter.__del__ *)
+  sh_avro_flush_placeholder : bool;  (* AvroWriter.flush installs the writer on the placeholder schema "empty" when there is none *)
+  sh_avro_close_placeholder : bool;  (* AvroWriter.close installs it (when there is none) before flushing *)
   sh_avro_close_flushes : bool;      (* AvroWriter.close calls self.flush() before closing self.fp *)
   sh_stream_close_flushes : bool;    (* StreamWriter.close calls a flush before closing *)
   sh_split_ge : bool;                (* SplitWriter.write: true = `written >= count`, false = `written > count` *)
-  sh_split_roll : list rollstep      (* the statements of that `if`, in order *)
+  sh_split_roll : list rollstep;     (* the statements of that `if`, in order *)
+  sh_rotate_counter : bool           (* rotate_existing_file appends a counter to the rotated name until it is free *)
 }.
 
 (* ------------------------------------------------------------------------------------------------ *)
@@ -154,17 +157,18 @@ Definition stream_write (st : wstate) (r : rec) : wstate :=
 Definition avro_hdr (st : wstate) : akind := match w_file st with FileAvro h _ => h | _ => KNone end.
 Definition avro_data (st : wstate) : list rec := match w_file st with FileAvro _ d => d | _ => [] end.
 
-(* AvroWriter.flush on an open writer: create the fallback writer on schema "empty" when there is none (its
-   constructor writes the header), then fastavro's Writer.flush writes the buffered block *)
-Definition avro_flush_open (st : wstate) : wstate :=
-  let st1 :=
-    match w_awr st with
-    | KNone => mkW (w_open st) (w_hdr st) (w_seen st) (w_adesc st) KEmpty (w_buf st) (w_count st)
-                   (FileAvro (match avro_hdr st with KNone => KEmpty | h => h end) (avro_data st))
-    | _ => st
-    end in
-  mkW (w_open st1) (w_hdr st1) (w_seen st1) (w_adesc st1) (w_awr st1) [] (w_count st1)
-      (FileAvro (avro_hdr st1) (avro_data st1 ++ w_buf st1)).
+(* self.writer = fastavro.write.Writer(self.fp, <schema "empty">) when there is no writer: its constructor writes the header *)
+Definition avro_install_placeholder (st : wstate) : wstate :=
+  match w_awr st with
+  | KNone => mkW (w_open st) (w_hdr st) (w_seen st) (w_adesc st) KEmpty (w_buf st) (w_count st)
+                 (FileAvro (match avro_hdr st with KNone => KEmpty | h => h end) (avro_data st))
+  | _ => st
+  end.
+(* fastavro's Writer.flush: the buffered block goes to the file *)
+Definition avro_writer_flush (st : wstate) : wstate :=
+  mkW (w_open st) (w_hdr st) (w_seen st) (w_adesc st) (w_awr st) [] (w_count st)
+      (FileAvro (avro_hdr st) (avro_data st ++ w_buf st)).
+Definition avro_flush_open (st : wstate) : wstate := avro_writer_flush (avro_install_placeholder st).
 
 Definition tables_of (st : wstate) : list table := match w_file st with FileSqlite t => t | _ => [] end.
 
@@ -216,12 +220,22 @@ Definition do_write (k : adapter) (st : wstate) (r : rec) : wstate * outcome :=
         ((if Nat.eqb (Nat.modulo (w_count st2) batch) 0 then sqlite_commit st2 else st2), Ok)
     end.
 
+(* AvroWriter.flush, in either of its two shapes *)
+Definition avro_flush (st : wstate) : wstate * outcome :=
+  if sh_avro_flush_placeholder sh then
+    (* `if not self.writer: self.writer = Writer(self.fp, ...)`; `self.writer.flush()` *)
+    if w_open st then (avro_flush_open st, Ok)
+    else (st, Raised)                      (* self.fp is None -> Writer(None, ...) raises *)
+  else
+    (* `if self.writer: self.writer.flush()`  (a closed writer has self.writer = None) *)
+    if w_open st then match w_awr st with KNone => (st, Ok) | _ => (avro_writer_flush st, Ok) end
+    else (st, Ok).
+
 Definition do_flush (k : adapter) (st : wstate) : wstate * outcome :=
   match k with
   | AStream => ((if w_open st then stream_header st else st), Ok)
   | APlain => (st, Ok)
-  | AAvro => if w_open st then (avro_flush_open st, Ok)
-             else (st, Raised)             (* self.writer is None -> Writer(None, ...) raises *)
+  | AAvro => avro_flush st
   | ASqlite => ((if w_open st then sqlite_commit st else st), Ok)
   end.
 
@@ -232,7 +246,8 @@ Definition do_close (k : adapter) (st : wstate) : wstate * outcome :=
     | AStream => (set_open (if sh_stream_close_flushes sh then stream_header st else st) false, Ok)
     | APlain => (set_open st false, Ok)
     | AAvro =>
-        let st1 := if sh_avro_close_flushes sh then avro_flush_open st else st in
+        let st0 := if sh_avro_close_placeholder sh then avro_install_placeholder st else st in
+        let st1 := if sh_avro_close_flushes sh then fst (avro_flush st0) else st0 in
         (mkW false (w_hdr st1) (w_seen st1) (w_adesc st1) KNone [] (w_count st1) (w_file st1), Ok)
     | ASqlite => (set_open (sqlite_commit st) false, Ok)
     end.
@@ -417,7 +432,15 @@ Record pstate := mkP {
   p_clock : list stamp;
   p_log : list rename_event }.    (* the RENAME lines, in order *)
 
-Variable rot_name : path -> stamp -> path.     (* the rotated name rotate_existing_file builds *)
+Variable rot_name : path -> stamp -> nat -> path.   (* the rotated name for a counter value (0: no counter) *)
+
+(* `counter = 0; while os.path.exists(dst): counter += 1; dst = <name with counter>`: the first free name.  The
+   search is bounded by the number of files (one of that many + 1 distinct names is free). *)
+Fixpoint pick_name (files : list (path * file)) (p : path) (s : stamp) (fuel n : nat) : path :=
+  let c := rot_name p s n in
+  if fs_mem String.eqb c files then
+    match fuel with O => c | S f => pick_name files p s f (S n) end
+  else c.
 
 Definition pt_files (st : pstate) : list (path * file) :=
   p_fs st ++ match p_current st, p_writer st with Some p, Some w => [(p, w_file w)] | _, _ => [] end.
@@ -429,7 +452,8 @@ Definition pt_init (pre : list (path * file)) (clock : list stamp) : pstate := m
 Definition pt_rotate (st : pstate) (p : path) : pstate :=
   if fs_mem String.eqb p (p_fs st) then
     let s := hd EmptyString (p_clock st) in
-    let dst := rot_name p s in
+    let dst := if sh_rotate_counter sh then pick_name (pt_files st) p s (List.length (pt_files st)) 0
+               else rot_name p s 0 in
     mkP (p_current st) (p_writer st) (fs_rename String.eqb p dst (p_fs st)) (tl (p_clock st))
         (p_log st ++ [mkRen p s dst (fs_mem String.eqb dst (pt_files st))])
   else st.
@@ -541,9 +565,12 @@ Definition py_splitext (name : string) : string * string :=
   end.
 
 (* rotate_existing_file's destination for a path "dir/fname" (dir kept as is; realpath is the identity on the
-   paths the check uses): "{fname}.{stamp}.{ext}" with ext = "records.gz" for that naming convention, else
+   paths the check uses): "{fname}.{stamp}.{ext}", or "{fname}.{stamp}-{counter}.{ext}" for a counter > 0, with ext = "records.gz" for that naming convention, else
    os.path.splitext's extension INCLUDING its dot *)
-Definition rot_name_py (p : path) (s : stamp) : path :=
+Definition stamp_n (s : stamp) (n : nat) : string :=
+  match n with O => s | S _ => s ++ "-" ++ dec (N.of_nat n) end.
+Definition rot_name_py (p : path) (s0 : stamp) (n : nat) : path :=
+  let s := stamp_n s0 n in
   let (dir, fname) :=
     match rsplit_last slash (la p) with
     | Some (d, f) => (sl d ++ "/", sl f)
